@@ -147,8 +147,23 @@ def run(ctx, env):
     hb = off.body(HELPER)
     if ctx.anchor("R17.4", HELPER + " (feature off)", hb):
         ano = An(off)
-        ret = peel(ano.expand(ano.local(hb, 0)))
-        members = ret[1] if ret[0] == "phi" else [ret]
+        # the values `_0` receives in the blocks that can execute (a `cfg!(feature = ..)` test is a constant
+        # condition: the branch it rules out is dead code in this configuration)
+        live = hb.reachable_cp(0)
+        sl = ano.slicer(hb)
+        members = []
+        for d in sl.defs.get(0, []):
+            if d[1] not in live:
+                continue
+            if d[0] == "assign":
+                members.append(ano.expand(sl.rvalue(d[3], d[1])))
+            elif d[0] == "call":
+                members.append(ano.expand(sl.call_expr(d[1], d[2])))
+        flat = []
+        for m in members:
+            m = peel(m)
+            flat.extend(m[1] if m[0] == "phi" else [m])
+        members = flat
         kinds = []
         for m in members:
             m = peel(m)
